@@ -89,6 +89,33 @@ def subscript_edge_formulas():
     return sorted(set(out))
 
 
+def name_edge_strings(names):
+    """for by-name lookups: every catalogue name +- one character, and every length 0..100 (a fixed-size scratch buffer sized for the longest
+    catalogue name overflows only for a name of exactly one particular length)"""
+    out = []
+    for n in names:
+        out += [n + "x", n[:-1], n + " ", n.lower(), n.upper()]
+    longest = max(names, key=len) if names else ""
+    for L in range(0, 101):
+        out.append("A" * L)
+        out.append((longest + "x" * 100)[:L])
+    return list(dict.fromkeys(out))
+
+
+WIDE_SYMS = ["H", "Li", "Be", "B", "C", "N", "O", "F", "Na", "Mg", "Al", "Si", "P", "S", "Cl", "K", "Ca", "Sc", "Ti", "V", "Cr", "Mn", "Fe", "Co"]
+
+
+def wide_formulas():
+    """formulas with 1..24 DISTINCT elements in one flat run, in one group, and on levels that consist of groups only (with later groups that
+    introduce new / repeat old elements): growth of the parser's element array at every size, on every level"""
+    out = []
+    for n in range(1, len(WIDE_SYMS) + 1):
+        run = "".join(WIDE_SYMS[:n]); rev = "".join(reversed(WIDE_SYMS[:n]))
+        out += [run, rev, "(%s)2" % run, "(%s)2(Zn)3" % run, "(Zn)3(%s)2" % run, "(%s)2(ZnBr)3" % rev, "(%s)2(%s)3" % (run, WIDE_SYMS[0]),
+                "Cu((%s)(PS2)3)2" % run, "((%s)2(Zn)3)2" % run, "(%s)(ZnO)" % run, "(%s)2(%s)3Zn" % (run, rev)]
+    return out
+
+
 def short_strings(L):
     """every string of length 1..L over two six-symbol alphabets whose letters collide into one- and two-letter symbols"""
     import itertools
@@ -99,7 +126,9 @@ def short_strings(L):
     return out
 
 
-NIST_SAMPLE = ["Water, Liquid", "Air, Dry (near sea level)", "Kapton Polyimide Film", "Bone, Cortical (ICRP)", "Lead Glass", "water", "Water, liquid"]
+NIST_SAMPLE = ["Water, Liquid", "Air, Dry (near sea level)", "Kapton Polyimide Film", "Bone, Cortical (ICRP)", "Lead Glass", "water", "Water, liquid",
+               # catalogue names one of which is a proper prefix of the other, longer one first (a lookup that compares a prefix needs the pair in this order)
+               "Propane, Liquid", "Propane", "Polyethylene Terephthalate (Mylar)", "Polyethylene", "Freon-12B2", "Freon-12", "Water, Liq"]
 
 
 def strings(level=1):
